@@ -445,7 +445,8 @@ def run_case(case, ctx):
             # the plain assertion may legitimately give an identity; what matters is that the outsider's content never does
             i_ = fed.identity_of(resp) if resp is not None else {}
             # (what the SP took over: the assertions it keeps - an attribute of the same name in a later assertion may hide the value in ava)
-            leaked = "attacker-value" in repr(i_.get("ava")) or any(str(getattr(a_, "id", "")).endswith("c") or "attacker-value" in ("%s" % a_)
+            # (the forged assertion is known by its exact ID - identifiers are random text, any suffix test hits a genuine one now and then)
+            leaked = "attacker-value" in repr(i_.get("ava")) or any(str(getattr(a_, "id", "")) == aid + "c" or "attacker-value" in ("%s" % a_)
                                                                      for a_ in (getattr(resp, "assertions", None) or []))
             if leaked and case["msg"].startswith("tampered"):
                 viol.append({"key": "C20/tampered-assertion-accepted-after-decryption-fault", "what": desc + ": identity %r, events %r" % (
